@@ -693,7 +693,93 @@ def run_ties(case):
     return Outcome(None, n_tied > 0 or "equal_untied_parameters" in labels, labels)
 
 
+# ------------------------------------------------------------------------------------------ explicit None over every default
+_NONE_CLASSES = None
+
+
+def _none_pairs():
+    """(class name, argument) for every constructor argument with a non-None default of the classes that can be
+    built from defaults alone (theories, strategies, constraints, priors with their minimal arguments)."""
+    global _NONE_CLASSES
+    if _NONE_CLASSES is None:
+        from holopy.scattering import theory as th
+        from holopy.scattering import Sphere, Spheres
+        from holopy.core import prior
+        import holopy.inference as inf
+        base = {
+            "Mie": (th.Mie, {}), "Multisphere": (th.Multisphere, {}), "MieLens": (th.MieLens, {}), "AberratedMieLens": (th.AberratedMieLens, {}),
+            "Lens": (th.Lens, {"lens_angle": 0.6, "theory": th.Mie()}),
+            "NmpfitStrategy": (inf.NmpfitStrategy, {}), "CmaStrategy": (inf.CmaStrategy, {}), "EmceeStrategy": (inf.EmceeStrategy, {}),
+            "TemperedStrategy": (inf.TemperedStrategy, {}), "LeastSquaresScipyStrategy": (inf.LeastSquaresScipyStrategy, {}),
+            "LimitOverlaps": (inf.LimitOverlaps, {}),
+            "Sphere": (Sphere, {}), "Uniform": (prior.Uniform, {"lower_bound": 0.5, "upper_bound": 2.0}),
+            "Gaussian": (prior.Gaussian, {"mu": 1.0, "sd": 0.5}), "BoundedGaussian": (prior.BoundedGaussian, {"mu": 1.0, "sd": 0.5}),
+        }
+        pairs = []
+        for cname, (cls, kw) in sorted(base.items()):
+            for nme, par in inspect.signature(cls.__init__).parameters.items():
+                if nme == "self" or nme in kw or par.default is inspect._empty or par.default is None:
+                    continue
+                pairs.append((cname, nme, "falsy" if not isinstance(par.default, str) and not par.default else "truthy"))
+        _NONE_CLASSES = (base, pairs)
+    return _NONE_CLASSES
+
+
+def strat_none(tier):
+    base, pairs = _none_pairs()
+    return st.fixed_dictionaries({"pair": st.sampled_from(pairs), "route": st.sampled_from(["path", "stream", "yaml"]), "cycles": st.integers(1, 2)})
+
+
+def run_none(case):
+    import warnings
+    base, _ = _none_pairs()
+    cname, arg, kind = case["pair"]
+    cls, kw = base[cname]
+    labels = [cname, "default_" + kind, case["route"]]
+
+    def make():
+        with warnings.catch_warnings():
+            warnings.simplefilter("ignore")
+            return cls(**dict(kw, **{arg: None}))
+    try:
+        o = make()
+    except Exception as e:
+        # None is not a valid value for this argument: nothing to save
+        return Outcome(None, False, labels + ["none_rejected_by_constructor"], skipped=True)
+    stored_none = hasattr(o, arg) and getattr(o, arg) is None
+    labels.append("none_stored" if stored_none else "none_consumed")
+    n0 = normalise(o)
+    cur = o
+    texts = []
+    for cyc in range(case["cycles"]):
+        try:
+            cur, text = roundtrip(cur, case["route"])
+        except Exception as e:
+            return Outcome(failure("save_load_exception", "%s(%s=None): %s during save/load cycle %d: %s" % (cname, arg, type(e).__name__, cyc + 1, str(e)[:300]),
+                                   klass=cname, exc=type(e).__name__), True, labels)
+        texts.append(text)
+        if type(cur) is not type(o):
+            return Outcome(failure("class_changed", "%s reloaded as %s" % (cname, type(cur).__name__), klass=cname), True, labels)
+        n1 = normalise(cur)
+        if n1 != n0:
+            return Outcome(failure("explicit_none_lost", "%s(%s=None): constructor argument differs after cycle %d: %s" % (cname, arg, cyc + 1, _first_diff(n0, n1)),
+                                   klass=cname, arg=arg), True, labels)
+    f0, f1 = full_state(make()), full_state(cur)
+    if f0 != f1:
+        return Outcome(failure("state_changed", "%s(%s=None): reloaded object differs from one built from the same arguments: %s" % (cname, arg, _first_diff(f0, f1)),
+                               klass=cname, arg=arg), True, labels)
+    if any(t != texts[0] for t in texts) or roundtrip(cur, case["route"])[1] != texts[0]:
+        return Outcome(failure("text_not_fixpoint", "%s(%s=None): saving the reloaded object gives different text" % (cname, arg), klass=cname, arg=arg), True, labels)
+    return Outcome(None, stored_none, labels)
+
+
 SUBCHECKS = [
+    Sub("explicit_none", strat_none, run_none, 400, 3000,
+        "every constructor argument with a non-None default (truthy or falsy: 0, 0.0, False, {}, []) of the theories, strategies, "
+        "LimitOverlaps, Sphere and the three scalar priors, set explicitly to None (skipped when the constructor rejects None): "
+        "path/stream/yaml, 1-2 cycles: same stored arguments, same state as a fresh object built with the same None, text fixpoint; "
+        "non-trivial = the None is stored on the object",
+        tolerances={"equality": "exact after normalisation"}),
     Sub("model_sequences", strat_seq, run_seq, 600, 10000,
         "2-4 different models (C11 template generator; with and without LimitOverlaps constraints) saved and loaded in a "
         "generated order of 2-6 steps inside one process: every reload equals its own original (constraints, parameter "
